@@ -107,6 +107,16 @@ pub fn gen_source(rng: &mut Rng, i: usize) -> String {
         }
         s.push_str(&format!("    K{v},\n"));
     }
+    if rng.chance(1, 3) {
+        // literals that span several lines of the input file: a verbose-mode pattern, a raw literal holding a line break
+        // that matters, a cooked literal with a line break, a byte raw literal
+        match rng.below(4) {
+            0 => s.push_str("    #[regex(r\"(?x)\n        0x [0-9a-f]+   # hexadecimal\n      | 0b [01]+       # binary\n    \")]\n    Radix,\n"),
+            1 => s.push_str("    #[regex(r\"<<\n>>\")]\n    Heredoc,\n"),
+            2 => s.push_str("    #[token(\"\\\\\n\")]\n    LineContinuation,\n"),
+            _ => s.push_str("    #[regex(br#\"@@\n@\"#)]\n    AtLines,\n"),
+        }
+    }
     if rng.chance(2, 3) {
         s.push_str("    #[regex(\"[0-9]+\", |lex| lex.slice().len())]\n");
         let fattr = *rng.pick(&["#[allow(unused)] ", "", "#[end] ", "#[extras(skip)] "]);
@@ -126,7 +136,12 @@ pub fn gen_files(seed: u64, count: usize, dir: &Path) -> Value {
     let mut samples = vec![];
     for i in 0..count {
         let mut rng = Rng::derive(seed ^ 0xC17, i as u64);
-        let src = gen_source(&mut rng, i);
+        let mut src = gen_source(&mut rng, i);
+        // every fifth input file has CRLF line endings (a Windows checkout): rustc normalises CRLF to LF when it loads a
+        // source file, so the derive - whose output the CLI has to reproduce - never sees a CR
+        if i % 5 == 3 {
+            src = src.replace('\n', "\r\n");
+        }
         std::fs::write(dir.join(format!("in_{i}.rs")), &src).unwrap();
         if i < 2 {
             samples.push(src);
@@ -208,6 +223,8 @@ fn canon_enum(mut item: syn::ItemEnum, strip: bool) -> Result<Vec<String>, Strin
 /// Check one (input, output) pair. Returns the list of problems (empty = fine).
 pub fn oracle(input: &str, output: &str, formatted: bool) -> Vec<String> {
     let mut problems = vec![];
+    // what the derive sees is the file as rustc loads it: CRLF normalised to LF
+    let input = &input.replace("\r\n", "\n");
     let in_enum: syn::ItemEnum = match syn::parse_str(input) {
         Ok(e) => e,
         Err(e) => return vec![format!("HARNESS: input does not parse: {e}")],
